@@ -44,8 +44,13 @@ class Res:
 
 
 class Lib:
-    def __init__(self, config, flavour='plain', env=None):
+    def __init__(self, config, flavour='plain', env=None, shuffle=True):
         self.config, self.flavour = config, flavour
+        # requests are executed in a seeded random order (and un-permuted afterwards): the library claims to be a function of
+        # its arguments alone, so any "last call" cache or scratch state turns into wrong values for the oracles instead of hiding
+        # behind the regular order of their grids
+        self.shuffle = shuffle
+        self._nrun = 0
         self.mon = build.harness(config, flavour)
         st = json.load(open(os.path.join(build.sigtab(), 'sigtab.json')))
         self.fns = {f['name']: f for f in st['fns']}
@@ -57,6 +62,12 @@ class Lib:
     def run(self, req, strings=()):
         if len(req) == 0:
             return Res(np.zeros(0, RESP), [])
+        perm = None
+        if self.shuffle and len(req) > 2:
+            from .common import seed
+            self._nrun += 1
+            perm = np.random.default_rng(seed() * 1000003 + self._nrun).permutation(len(req))
+            req = req[perm]
         d = tempfile.mkdtemp(prefix='xv-exec-')
         try:
             rq, st, rs, ms = [os.path.join(d, x) for x in ('req', 'str', 'resp', 'msg')]
@@ -84,6 +95,9 @@ class Lib:
                 bad = np.nonzero(resp['status'] & ~1)[0][:3]
                 raise Inconclusive('executor harness error (status %r) on request(s) %r' % (resp['status'][bad].tolist(), bad.tolist()))
             self.calls += len(req)
+            if perm is not None:
+                inv = np.empty_like(perm); inv[perm] = np.arange(len(perm))
+                resp = resp[inv]
             return Res(resp, msgs)
         finally:
             shutil.rmtree(d, ignore_errors=True)
@@ -180,6 +194,42 @@ class Lib:
         if sidx is not None:
             req['s'] = b[-1].reshape(-1)
         return self.run(req, strings)
+
+
+def independence(ck, prefix, config, jobs, orders=('given', 'reversed', 'last-argument-major')):
+    """The same calls in different ORDERS and WITHOUT an error slot must give bit-identical values.
+    jobs: list of (name, args...).  Reports <prefix>:<fn>:result-depends-on-call-order / :value-without-error-slot-differs."""
+    base = Lib(config, shuffle=False)
+    nosl = Lib(config, shuffle=False, env={'XV_NOSLOT': '1'})
+    n = 0
+    for j in jobs:
+        name = j[0]
+        req, strs = base.build(name, *j[1:])
+        ref = base.run(req, strs); n += len(req)
+        f = base.fns[name]
+        nd = f['sig'].count('d')
+        for o in orders[1:]:
+            if o == 'reversed':
+                idx = np.arange(len(req))[::-1]
+            else:       # consecutive calls share the LAST double argument and differ in the earlier ones
+                key = req['d'][:, max(nd - 1, 0)]
+                idx = np.argsort(key, kind='stable')
+            r2 = base.run(req[idx], strs); n += len(req)
+            bad = np.nonzero((r2.v.view('u8') != ref.v[idx].view('u8')) | (r2.status != ref.status[idx]))[0]
+            for k in bad[:2]:
+                q = req[idx][k]
+                ck.violation('%s:%s:result-depends-on-call-order' % (prefix, name),
+                             '%s returns %r when called in %s order and %r in the given order' % (name, float(r2.v[k]), o, float(ref.v[idx][k])),
+                             dict(function=name, ints=q['i'][:3].tolist(), doubles=q['d'][:4].tolist(), order=o, config=config))
+        r3 = nosl.run(req, strs); n += len(req)
+        bad = np.nonzero(r3.v.view('u8') != ref.v.view('u8'))[0]
+        bad = [k for k in bad if not (np.isnan(r3.v[k]) and np.isnan(ref.v[k]))]
+        for k in bad[:2]:
+            q = req[k]
+            ck.violation('%s:%s:value-without-error-slot-differs' % (prefix, name),
+                         '%s returns %r without an error slot and %r (%s) with one' % (name, float(r3.v[k]), float(ref.v[k]), ref.msg(k) if ref.err[k] else 'success'),
+                         dict(function=name, ints=q['i'][:3].tolist(), doubles=q['d'][:4].tolist(), config=config))
+    return n
 
 
 class ExecCrash(Exception):
